@@ -198,7 +198,7 @@ R_<TG_, TA_>::initialEnter() noexcept {
 		 i < SUBSTITUTION_LIMIT && _core.request;
 		 ++i)
 	{
-		//backup();
+		const Short requestedBackup = _core.registry.requested;
 
 		if (applyRequest(currentTransition,
 						 _core.request.destination))
@@ -208,7 +208,7 @@ R_<TG_, TA_>::initialEnter() noexcept {
 
 			if (cancelledByEntryGuards(currentTransition,
 									   pendingTransition))
-				FFSM2_BREAK();
+				_core.registry.requested = requestedBackup;
 			else
 				currentTransition = pendingTransition;
 
@@ -287,7 +287,7 @@ R_<TG_, TA_>::processTransitions(Transition& currentTransition) noexcept {
 		i < SUBSTITUTION_LIMIT && _core.request;
 		++i)
 	{
-		//backup();
+		const Short requestedBackup = _core.registry.requested;
 
 		if (applyRequest(currentTransition,
 						 _core.request.destination))
@@ -297,7 +297,7 @@ R_<TG_, TA_>::processTransitions(Transition& currentTransition) noexcept {
 
 			if (cancelledByGuards(currentTransition,
 								  pendingTransition))
-				;
+				_core.registry.requested = requestedBackup;
 			else
 				currentTransition = pendingTransition;
 
